@@ -31,7 +31,7 @@ ASSUMPTIONS = [
     'type constraints cannot be broken by a single row in SQLite (declared types) and are not perturbed',
     'the string used to break a rex constraint is one that no discovered expression matches under Python re with and without DOTALL',
 ]
-REQUIRED_MONITORS = ['tables:big', 'connection:named_db_beside_connection_file', 'closure:clean', 'perturb:min', 'perturb:max', 'perturb:min_length', 'perturb:max_length',
+REQUIRED_MONITORS = ['tables:big', 'perturb:fraction_in_integer_column', 'connection:named_db_beside_connection_file', 'closure:clean', 'perturb:min', 'perturb:max', 'perturb:min_length', 'perturb:max_length',
                      'perturb:allowed_values', 'perturb:no_duplicates', 'perturb:max_nulls', 'perturb:rex',
                      'perturb:sign', 'sql:statements', 'rollback:clean',
                      'sql:regexp_statements', 'sql:regexp_with_quote_in_expression']
@@ -199,52 +199,60 @@ def run_case(ctx, case):
             if isinstance(bv, str) and bv == 'IMPOSSIBLE':
                 rec.note('no single row can break %s here' % kind)
                 continue
-            step = {'field': name, 'kind': kind, 'constraint': common.jsafe(value), 'row_value': common.jsafe(bv)}
-            rec.case({'spec': spec, 'rex': case['rex'], 'step': step}, nontrivial=True, cls=[('step=' + kind,)])
-            pk = spec.get('primary_key') or []
-            if bv is None and pk == [name] and col['sqltype'].lower() == 'integer':
-                rec.note('a NULL in an INTEGER PRIMARY KEY column is replaced by SQLite itself')
-                continue
-            try:
-                row = [bv if n == name else None for n in names]
-                for j_, n_ in enumerate(names):
-                    if n_ in pk and n_ != name:
-                        # the other member(s) of the key: a fresh id, or a value already there - the PAIR stays unique
-                        row[j_] = 10 ** 6 + len(sql) if n_ == 'pkid' else next((T.sql_value(cols[n_], v_) for v_ in cols[n_]['values'] if v_ is not None), None)
-                if ins is not None:
-                    # another process's view: the row is committed to the named file through a connection of its own
-                    cur_ = ins.execute('INSERT INTO %s VALUES (%s)' % (spec['table'], ', '.join('?' * len(row))), row)
-                    ins.commit()
-                    try:
-                        v2 = verify()
-                    finally:
-                        ins.execute('DELETE FROM %s WHERE rowid = ?' % spec['table'], (cur_.lastrowid,))
-                        ins.commit()
-                    got = verdicts(v2).get((name, kind), 'absent')
-                else:
-                    conn.execute('SAVEPOINT vt')
-                    conn.execute('INSERT INTO %s VALUES (%s)' % (spec['table'], ', '.join('?' * len(row))), row)
-                    v2 = verify()
-                    got = verdicts(v2).get((name, kind), 'absent')
-                    conn.execute('ROLLBACK TO vt')
-                    conn.execute('RELEASE vt')
-            except Exception as e:
-                import sqlite3 as _sq
-                if isinstance(e, _sq.IntegrityError):
-                    rec.note('the database itself refuses the perturbing row (key constraint)')     # nothing for tdda to notice
-                else:
-                    raised(e, step)
+            bvs = [bv]
+            if F.FAMILY[col['kind']] == 'int' and isinstance(bv, int) and not isinstance(bv, bool) and abs(bv) < 2 ** 50 and kind in ('min', 'max', 'sign'):
+                # SQLite keeps a value that is not a whole number as a REAL even in a column declared INTEGER: half a step
+                # beyond the bound breaks it as surely as a whole step
+                bvs.append((bv + value) / 2.0 if kind != 'sign' else bv / 2.0)
+            for bv in bvs:
+                step = {'field': name, 'kind': kind, 'constraint': common.jsafe(value), 'row_value': common.jsafe(bv)}
+                rec.case({'spec': spec, 'rex': case['rex'], 'step': step}, nontrivial=True, cls=[('step=' + kind,)])
+                pk = spec.get('primary_key') or []
+                if bv is None and pk == [name] and col['sqltype'].lower() == 'integer':
+                    rec.note('a NULL in an INTEGER PRIMARY KEY column is replaced by SQLite itself')
+                    continue
                 try:
-                    conn.execute('ROLLBACK TO vt')
-                    conn.execute('RELEASE vt')
-                except Exception:
-                    pass
-                continue
-            rec.event('perturb:' + kind)
-            if got is not False and got != 'absent' and got or got == 'absent':
-                rec.violation('violating_row_not_noticed', {
-                    'case': case, 'mech': {'kind': kind, 'sqltype': col['sqltype'], 'via': 'connection-file' if via else 'handle'},
-                    'facts': dict(step, verdict=repr(got), last_sql=sql[-1:])})
+                    row = [bv if n == name else None for n in names]
+                    for j_, n_ in enumerate(names):
+                        if n_ in pk and n_ != name:
+                            # the other member(s) of the key: a fresh id, or a value already there - the PAIR stays unique
+                            row[j_] = 10 ** 6 + len(sql) if n_ == 'pkid' else next((T.sql_value(cols[n_], v_) for v_ in cols[n_]['values'] if v_ is not None), None)
+                    if ins is not None:
+                        # another process's view: the row is committed to the named file through a connection of its own
+                        cur_ = ins.execute('INSERT INTO %s VALUES (%s)' % (spec['table'], ', '.join('?' * len(row))), row)
+                        ins.commit()
+                        try:
+                            v2 = verify()
+                        finally:
+                            ins.execute('DELETE FROM %s WHERE rowid = ?' % spec['table'], (cur_.lastrowid,))
+                            ins.commit()
+                        got = verdicts(v2).get((name, kind), 'absent')
+                    else:
+                        conn.execute('SAVEPOINT vt')
+                        conn.execute('INSERT INTO %s VALUES (%s)' % (spec['table'], ', '.join('?' * len(row))), row)
+                        v2 = verify()
+                        got = verdicts(v2).get((name, kind), 'absent')
+                        conn.execute('ROLLBACK TO vt')
+                        conn.execute('RELEASE vt')
+                except Exception as e:
+                    import sqlite3 as _sq
+                    if isinstance(e, _sq.IntegrityError):
+                        rec.note('the database itself refuses the perturbing row (key constraint)')     # nothing for tdda to notice
+                    else:
+                        raised(e, step)
+                    try:
+                        conn.execute('ROLLBACK TO vt')
+                        conn.execute('RELEASE vt')
+                    except Exception:
+                        pass
+                    continue
+                rec.event('perturb:' + kind)
+                if isinstance(bv, float) and F.FAMILY[col['kind']] == 'int':
+                    rec.event('perturb:fraction_in_integer_column')
+                if got is not False and got != 'absent' and got or got == 'absent':
+                    rec.violation('violating_row_not_noticed', {
+                        'case': case, 'mech': {'kind': kind, 'sqltype': col['sqltype'], 'via': 'connection-file' if via else 'handle'},
+                        'facts': dict(step, verdict=repr(got), last_sql=sql[-1:])})
     try:
         stage = 'verify-after-rollback'
         v3 = verify()
